@@ -204,4 +204,103 @@ example : ∃ r, encoderCompress [7] 1 23 23 { result := false, finished := fals
   · simp at h5
   · exact ⟨r, h, hr, h5⟩
 
+
+/-! ## the never-flushed stream at quality ≥ 2 -/
+
+/- FULL STATEMENT (`stream_total_le_bound`), which is FALSE for the unchanged code
+(defect D17, known finding `header:c08:stream-exceeds-bound:size_hint-above-u32`):
+
+  ∀ p input st, 2 ≤ p.quality → p.sizeHint < 2^64 → input.length < 2^54 →
+    streamStart true p input = ok st →
+    (st.whole → st.bits.length / 8 ≤ Max |input|) ∧
+    (¬ st.whole → ∀ lens Pm, Run st.bits.length lens Pm → BlocksOK st.prelude lens →
+        lens.sum + st.prelude = |input| → (Pm + 2 + 7) / 8 ≤ Max |input|)
+
+It is proved below with `p.sizeHint < 2^35` in place of `< 2^64`
+(`stream_total_le_bound_partial`): that covers every value the parameter call
+`set_parameter(BROTLI_PARAM_SIZE_HINT, u32)` and the C ABI can set.
+`stream_bound_counterexample` is a concrete violation outside that range and
+`stream_bound_sharp` shows that 2^35 is the exact threshold under `Guard` alone. -/
+
+/-- `stream_total_le_bound_partial`: a stream produced at quality ≥ 2 without any
+flush, for ANY parameters with `size_hint < 2^35` (window, large_window, catable,
+appendable, use_dictionary, magic_number arbitrary) and any input shorter than
+2^54: its payload-independent head (window bits, magic block, catable prelude)
+followed by meta-blocks of input lengths `lens` — where the payload encoder obeys
+`Guard` (a meta-block of `len` bytes advances the whole-byte position by at most
+`len + 4`, `+ 5` above 2^20: the "stored when bigger than input + 4" fallback of
+`WriteMetaBlockInternal`) and `BlocksOK` (every non-final meta-block covers
+≥ 2^14 input bytes: nothing is emitted before an input block is full) — and
+closed by the empty last meta-block is at most `BrotliEncoderMaxCompressedSize`
+bytes long.  When nothing is left for the payload encoder (`whole`) the claim is
+unconditional. -/
+theorem stream_total_le_bound_partial (p : Params) (input : List Nat) (st : Start)
+    (hq : 2 ≤ p.quality) (hh : p.sizeHint < 2 ^ 35) (hn : input.length < 2 ^ 54)
+    (hs : streamStart true p input = ok st) :
+    (st.whole = true → st.bits.length / 8 ≤ maxCompressedSize input.length) ∧
+    (st.whole = false → ∀ lens Pm, Run st.bits.length lens Pm → BlocksOK st.prelude lens →
+        lens.sum + st.prelude = input.length → (Pm + 2 + 7) / 8 ≤ maxCompressedSize input.length) :=
+  stream_total_bound p input st hq hh hn hs
+
+/-- the worst configuration inside the proved range (non-vacuity): catable, magic, large window, hint 2^35 - 1 -/
+def exampleTight : Params where
+  quality := 5
+  lgwin := 26
+  lgblock := 0
+  largeWindow := true
+  catable := true
+  appendable := true
+  useDictionary := false
+  magicNumber := true
+  sizeHint := 2 ^ 35 - 1
+
+set_option maxRecDepth 8192 in
+example : ∃ st, streamStart true exampleTight [1, 2, 3] = ok st ∧ st.whole = false ∧ st.prelude = 2 ∧
+    st.bits.length = 8 * 18 ∧ Run (8 * 18) [1] (8 * 18 + 8 * 4) ∧ BlocksOK 2 [1] :=
+  ⟨_, rfl, rfl, rfl, rfl, Run.cons (by decide) (Run.nil _), trivial⟩
+
+/-- the parameters of the known finding: quality 2, magic number, size hint 2^63, no input -/
+def exampleD17 : Params where
+  quality := 2
+  lgwin := 22
+  lgblock := 0
+  largeWindow := false
+  catable := false
+  appendable := false
+  useDictionary := true
+  magicNumber := true
+  sizeHint := 2 ^ 63
+
+set_option maxRecDepth 8192 in
+/-- `stream_bound_counterexample` (defect D17): with `magic_number` and
+`size_hint = 2^63` the complete stream for the empty input is 18 bytes, the
+advertised bound is 17. -/
+theorem stream_bound_counterexample :
+    ∃ st, streamStart true exampleD17 [] = ok st ∧ st.whole = true ∧
+      st.bits.length / 8 = 18 ∧ maxCompressedSize ([] : List Nat).length = 17 :=
+  ⟨_, rfl, rfl, rfl, by decide⟩
+
+/-- like `exampleTight` with the size hint 2^35 (6 base-128 bytes) -/
+def exampleSharp : Params where
+  quality := 5
+  lgwin := 26
+  lgblock := 0
+  largeWindow := true
+  catable := true
+  appendable := true
+  useDictionary := false
+  magicNumber := true
+  sizeHint := 2 ^ 35
+
+set_option maxRecDepth 8192 in
+/-- `stream_bound_sharp`: `2^35` is the exact threshold of the arithmetic: with
+`size_hint = 2^35`, catable, magic number and large window, a 100-byte input
+whose single meta-block uses what `Guard` allows ends 1 byte above the bound. -/
+theorem stream_bound_sharp :
+    ∃ st, streamStart true exampleSharp (List.replicate 100 0) = ok st ∧ st.whole = false ∧ st.prelude = 2 ∧
+      st.bits.length = 8 * 19 ∧
+      Run (8 * 19) [98] (8 * 19 + 8 * (98 + 4) + 7) ∧ BlocksOK 2 [98] ∧ 98 + 2 = 100 ∧
+      (8 * 19 + 8 * (98 + 4) + 7 + 2 + 7) / 8 = 123 ∧ maxCompressedSize 100 = 122 :=
+  ⟨_, rfl, rfl, rfl, rfl, Run.cons (by decide) (Run.nil _), trivial, rfl, by decide, by decide⟩
+
 end BV.Props.C08
